@@ -17,6 +17,7 @@ import (
 	"go.amzn.com/lambda/rapi/rendering"
 	supvmodel "go.amzn.com/lambda/supervisor/model"
 	"go.amzn.com/lambda/telemetry"
+	"go.amzn.com/lambda/verifhook"
 )
 
 type Sandbox struct {
@@ -127,6 +128,7 @@ func (r *rapidContext) HandleReset(reset *interop.Reset) (interop.ResetSuccess, 
 	// flows and return with the errResetReceived err - this error is special-cased
 	// and not handled by the init/invoke (unexpected) error handling functions
 	r.registrationService.CancelFlows(errResetReceived)
+	verifhook.Point("handleReset.flowsCancelled")
 
 	// Wait until invoke error handling has returned before continuing execution
 	r.handlerExecutionMutex.Lock()
